@@ -156,6 +156,49 @@ fn read_all(data: &[u8]) -> (Vec<String>, End, bool) {
     }
 }
 
+/// Reading with the reader's options: lenient mode (`allow_invalid`) and a preset
+/// class (`set_default_class`). Same observation as `read_all`.
+fn read_opts(data: &[u8], lenient: bool, preset: Option<u16>) -> (Vec<String>, End) {
+    let d = data.to_vec();
+    let cap = d.len() + 8;
+    let (tx, rx) = std::sync::mpsc::channel();
+    std::thread::spawn(move || {
+        let r = catch(move || {
+            let mut z = Zonefile::from(&d[..]);
+            if lenient { z = z.allow_invalid(); }
+            if let Some(c) = preset { z.set_default_class(domain::base::iana::Class::from_int(c)); }
+            let mut v = vec![];
+            loop {
+                match z.next_entry() {
+                    Ok(Some(e)) => { v.push(show_entry(&e)); if v.len() > cap { return (v, End::Cap); } }
+                    Ok(None) => return (v, End::Eof),
+                    Err(e) => return (v, End::Err(err_word(&e.to_string()))),
+                }
+            }
+        });
+        let _ = tx.send(match r { Ok(x) => x, Err(p) => (vec![], End::Panic(p)) });
+    });
+    match rx.recv_timeout(std::time::Duration::from_secs(HANG_SECS + HANG_RETRY_SECS)) { Ok(x) => x, Err(_) => (vec![], End::Hang) }
+}
+
+/// class field of a shown record entry ("R:owner:class:...")
+fn shown_class(s: &str) -> Option<u16> {
+    let mut it = s.split(':');
+    if it.next() != Some("R") { return None; }
+    it.nth(1)?.parse().ok()
+}
+
+/// one label of a name in presentation format. spelling 0: plain, 1: first octet as
+/// `\\DDD`, 2: last octet as `\\DDD`, 3: a middle octet as `\\c`, 4: every octet as `\\DDD`
+fn spell_label(o: &mut Vec<u8>, lab: &[u8], spelling: usize) {
+    for (i, &b) in lab.iter().enumerate() {
+        let esc = match spelling { 1 => i == 0, 2 => i + 1 == lab.len(), 4 => true, _ => false };
+        if esc { o.extend_from_slice(format!("\\{:03}", b).as_bytes()); }
+        else if spelling == 3 && i == lab.len() / 2 && !b.is_ascii_digit() { o.push(b'\\'); o.push(b); }
+        else { o.push(b); }
+    }
+}
+
 fn obs(v: &[String], e: &End) -> String {
     let mut s = String::new();
     for x in v { s.push_str(x); s.push(' '); }
@@ -401,7 +444,7 @@ enum Field {
 }
 
 #[derive(Clone, Debug)]
-struct Rec { owner: Name, ttl: u32, rtype: &'static str, fields: Vec<Field> }
+struct Rec { owner: Name, ttl: u32, class: u16, rtype: &'static str, fields: Vec<Field> }
 
 #[derive(Clone, Debug)]
 enum Item { Origin(Name), Ttl(u32), Rec(Rec), Include(Vec<u8>, Option<Name>) }
@@ -411,6 +454,8 @@ struct Layout {
     comments: bool, blank: bool, parens: bool, spacing: bool, crlf: bool,
     quote: bool, escape: bool, relname: bool, at: bool, at_rdata: bool, quote_include: bool,
     inh_owner: bool, inh_ttl: bool, inh_class: bool, ctr_order: bool,
+    /// class handed to `set_default_class` before reading (lenient-mode oracle only)
+    preset_class: Option<u16>,
 }
 
 const REWRITES: [&str; 15] = ["comments", "blank_lines", "parens", "spacing", "crlf", "quoted",
@@ -426,7 +471,7 @@ fn layout_of(i: usize) -> Layout {
         13 => l.at_rdata = true,
         14 => l.quote_include = true,
         _ => l = Layout { comments: true, blank: true, parens: true, spacing: true, crlf: true, quote: true,
-                 escape: true, relname: true, at: true, at_rdata: true, quote_include: false, inh_owner: true, inh_ttl: true, inh_class: true, ctr_order: true },
+                 escape: true, relname: true, at: true, at_rdata: true, quote_include: false, inh_owner: true, inh_ttl: true, inh_class: true, ctr_order: true, preset_class: None },
     }
     l
 }
@@ -540,13 +585,20 @@ fn eol(o: &mut Vec<u8>, l: &Layout, r: &mut Rng) {
     if l.comments && r.chance(1, 5) { comment(o, r); o.push(b'\n'); }
 }
 
+fn class_token(c: u16) -> Vec<u8> {
+    match c { 1 => b"IN".to_vec(), 3 => b"CH".to_vec(), 4 => b"HS".to_vec(), n => format!("CLASS{}", n).into_bytes() }
+}
+
 fn render(items: &[Item], l: &Layout, r: &mut Rng) -> Vec<u8> {
     let mut o = Vec::new();
     let mut origin: Option<Name> = None;
     let mut last_owner: Option<Name> = None;
     let mut stated_ttl: Option<u32> = None; // last TTL written explicitly
     let mut dollar_ttl: Option<u32> = None;
-    let mut class_stated = false;
+    // the class may be left out only where every reading of "inherited class" agrees: the
+    // first stated (or preset) class and the last stated class are both the record's class
+    let mut first_class: Option<u16> = l.preset_class;
+    let mut last_class: Option<u16> = l.preset_class;
     for it in items {
         match it {
             Item::Origin(n) => {
@@ -597,9 +649,9 @@ fn render(items: &[Item], l: &Layout, r: &mut Rng) -> Vec<u8> {
                 }
                 let inherited = dollar_ttl.or(stated_ttl);
                 let omit_ttl = l.inh_ttl && inherited == Some(rec.ttl) && r.chance(2, 3);
-                let omit_class = l.inh_class && class_stated && r.chance(2, 3);
+                let omit_class = l.inh_class && first_class == Some(rec.class) && last_class == Some(rec.class) && r.chance(2, 3);
                 let ttl_tok = rec.ttl.to_string().into_bytes();
-                let class_tok = b"IN".to_vec();
+                let class_tok = class_token(rec.class);
                 let swap = l.ctr_order && r.chance(1, 2);
                 if swap {
                     if !omit_class { toks.push(class_tok.clone()); }
@@ -609,7 +661,7 @@ fn render(items: &[Item], l: &Layout, r: &mut Rng) -> Vec<u8> {
                     if !omit_class { toks.push(class_tok.clone()); }
                 }
                 if !omit_ttl { stated_ttl = Some(rec.ttl); }
-                if !omit_class { class_stated = true; }
+                if !omit_class { last_class = Some(rec.class); if first_class.is_none() { first_class = Some(rec.class); } }
                 toks.push(rec.rtype.as_bytes().to_vec());
                 for f in &rec.fields {
                     let mut t = Vec::new();
@@ -780,7 +832,7 @@ fn gen_zone_of(r: &mut Rng, model_types: bool) -> Vec<Item> {
                 ("NSEC3PARAM", vec![Field::Int(r.below(256)), Field::Int(r.below(256)), Field::Int(r.below(65536)), Field::Word(salt)])
             }
         };
-        items.push(Item::Rec(Rec { owner: owner.clone(), ttl, rtype, fields }));
+        items.push(Item::Rec(Rec { owner: owner.clone(), ttl, class: 1, rtype, fields }));
     }
     items
 }
@@ -948,6 +1000,89 @@ fn main() {
         if r.chance(1, 8) { mutate(&mut r, &mut d); }
         d.push(b'\n');
         totality(&mut out, &el, &mut po, "generic_rdata", &d);
+    }
+
+    // ---- the 63-octet label limit must not depend on the spelling: labels of 61..66
+    //      octets, plain and with escapes (first / last / middle octet, all octets), alone,
+    //      after a plain or an escaped label (write position behind the read position),
+    //      before further labels, quoted; as owner, in record data, as $ORIGIN argument,
+    //      relative to $ORIGIN. Every file also goes through totality (and so into T2).
+    for n in 61..=66usize {
+        for ctx in 0..5usize {
+            for pos in 0..4usize {
+                let lab: Vec<u8> = (0..n).map(|_| *r.pick(b"abcxyzABZ-_")).collect();
+                let file = |sp_first: usize, sp: usize| -> Vec<u8> {
+                    let mut nm = Vec::new();
+                    if ctx == 4 { nm.push(b'"'); }
+                    if ctx == 1 || ctx == 2 { spell_label(&mut nm, b"b", sp_first); nm.push(b'.'); }
+                    spell_label(&mut nm, &lab, sp);
+                    if ctx == 3 { nm.extend_from_slice(b".c.d"); }
+                    if pos != 3 { nm.push(b'.'); }
+                    if ctx == 4 { nm.push(b'"'); }
+                    let mut d = Vec::new();
+                    match pos {
+                        0 => { d.extend_from_slice(&nm); d.extend_from_slice(b" 1 IN A 1.2.3.4\n"); }
+                        1 => { d.extend_from_slice(b"a. 1 IN NS "); d.extend_from_slice(&nm); d.extend_from_slice(b"\na. 1 IN A 1.2.3.4\n"); }
+                        2 => { d.extend_from_slice(b"$ORIGIN "); d.extend_from_slice(&nm); d.extend_from_slice(b"\n@ 1 IN NS x\n"); }
+                        _ => { d.extend_from_slice(b"$ORIGIN o.\n"); d.extend_from_slice(&nm); d.extend_from_slice(b" 1 IN MX 1 "); d.extend_from_slice(&nm); d.push(b'\n'); }
+                    }
+                    d
+                };
+                let canon = file(0, 0);
+                let (v0, e0) = totality(&mut out, &el, &mut po, "label_limit", &canon);
+                if matches!(e0, End::Panic(_) | End::Hang | End::Cap) { continue; }
+                if n <= 63 { out.check(e0 == End::Eof && !v0.is_empty(), "wellformed_rejected", &format!("read {}", hex(&canon)), &obs(&v0, &e0)); }
+                for sp in 0..5usize {
+                    // ctx 2: the label itself is plain, only the label before it is escaped
+                    let (sf, sl) = if ctx == 2 { (1 + sp % 2 * 3, 0) } else { (0, sp) };
+                    let alt = file(sf, sl);
+                    if alt == canon { continue; }
+                    let (v1, e1) = totality(&mut out, &el, &mut po, "label_limit", &alt);
+                    if matches!(e1, End::Panic(_) | End::Hang | End::Cap) { continue; }
+                    let c = format!("read {} vs {}", hex(&alt), hex(&canon));
+                    out.check(v1 == v0 && e1 == e0, "layout_dependent_escaped_label_limit", &c, &format!("{} <> {}", obs(&v1, &e1), obs(&v0, &e0)));
+                }
+            }
+        }
+    }
+
+    // ---- lenient mode (`allow_invalid`, with and without `set_default_class`): a zone
+    //      whose records state different classes. Every record must come back with the
+    //      class written on its line, and leaving out the class where it is inherited /
+    //      swapping class and TTL must not change the records. Without a preset class the
+    //      same file also goes through totality (strict mode: T2 against the model).
+    for i in 0..120 * scale {
+        let mut z = gen_zone(&mut r);
+        let palette: &[u16] = if i % 3 == 0 { &[1, 3] } else { &[1, 1, 3, 4, 2, 254, 65535] };
+        let run = r.chance(1, 2);
+        let mut cur = *r.pick(palette);
+        for it in z.iter_mut() { if let Item::Rec(rec) = it { if !run || r.chance(1, 3) { cur = *r.pick(palette); } rec.class = cur; } }
+        let preset = if r.chance(1, 3) { Some(*r.pick(palette)) } else { None };
+        let l0 = Layout { preset_class: preset, ..Layout::default() };
+        let canon = render(&z, &l0, &mut r);
+        let tag = match preset { Some(c) => format!(" lenient default_class {}", c), None => " lenient".to_string() };
+        let cc = format!("read {}{}", hex(&canon), tag);
+        out.begin(&cc);
+        let (v0, e0) = read_opts(&canon, true, preset);
+        out.oracle_case(&cc, true, "lenient_class");
+        if let End::Panic(m) = &e0 { out.check(false, panic_class(m, &canon), &cc, m); continue; }
+        let want: Vec<u16> = z.iter().filter_map(|i| if let Item::Rec(rec) = i { Some(rec.class) } else { None }).collect();
+        let got: Vec<u16> = v0.iter().filter_map(|s| shown_class(s)).collect();
+        out.check(e0 == End::Eof && got == want, "explicit_class_not_kept", &cc, &format!("classes read {:?}, classes written {:?}, {}", got, want, obs(&v0, &e0)));
+        if e0 != End::Eof { continue; }
+        for k in [11usize, 12, 9, 15] {
+            let l = Layout { preset_class: preset, ..layout_of(k) };
+            let alt = render(&z, &l, &mut r);
+            if alt == canon { continue; }
+            let c = format!("read {} vs {}{}", hex(&alt), hex(&canon), tag);
+            out.begin(&c);
+            let (v1, e1) = read_opts(&alt, true, preset);
+            out.oracle_case(&c, true, "lenient_rewrite");
+            if let End::Panic(m) = &e1 { out.check(false, panic_class(m, &alt), &c, m); continue; }
+            let class = format!("layout_dependent_lenient_{}", if k < 15 { REWRITES[k] } else { "mixed" });
+            out.check(v1 == v0 && e1 == e0, &class, &c, &format!("{} <> {}", obs(&v1, &e1), obs(&v0, &e0)));
+        }
+        if preset.is_none() { totality(&mut out, &el, &mut po, "multi_class", &canon); }
     }
 
     // ---- (b) metamorphic
